@@ -36,7 +36,7 @@ ASSUMPTIONS = [
     "ill-typed operands: name/array/dict/non-numeric string where a number is required; name/array/dict where a string is required; the compound operators ' and \" only get missing-operand faults",
     "q/Q do not occur inside BT..ET (not allowed by ISO 8.2)",
 ]
-PROBES = ["split into >1 streams", "empty stream piece", "cut inside TJ array", "form invoked", "nested form", "operand fault: missing", "operand fault: ill-typed", "several operand faults in one program", "type3 font", "type0 font", "Tc nonzero across show operators", "double-quote operator", "TD sets leading", "q/Q restores text state", "text after form", "font cache eviction", "page origin non-zero"]
+PROBES = ["split into >1 streams", "empty stream piece", "cut inside TJ array", "form invoked", "nested form", "form without own Resources", "operand fault: missing", "operand fault: ill-typed", "several operand faults in one program", "type3 font", "type0 font", "Tc nonzero across show operators", "double-quote operator", "TD sets leading", "q/Q restores text state", "text after form", "font cache eviction", "page origin non-zero"]
 TIERS = {
     "quick": {"batches": 16, "runs": 1200, "budget_s": 45},
     "thorough": {"batches": 128, "runs": 2500, "budget_s": 900},
@@ -192,7 +192,7 @@ def gen_fonts(t, ctx, base):
     return fonts
 
 
-def gen_forms(t, ctx, depth, counter):
+def gen_forms(t, ctx, depth, counter, parent_fonts=None):
     forms = {}
     if depth >= 3:
         return forms
@@ -201,6 +201,12 @@ def gen_forms(t, ctx, depth, counter):
         if sub:
             ctx.probe("nested form")
         counter[0] += 10
+        if parent_fonts is not None and not sub and t.coin(25, 100, "form.nores"):
+            # no /Resources entry: the form uses its caller's resources (fonts under the caller's names)
+            prog = gen_program(t, ctx, parent_fonts, set(), is_form=True)
+            forms[b"Fm%d" % (i + 1)] = gfx.Form(gen_matrix(t, "form.matrix"), (F(0), F(0), F(200), F(200)), None, prog, {})
+            ctx.probe("form without own Resources")
+            continue
         fonts = gen_fonts(t, ctx, counter[0])
         prog = gen_program(t, ctx, fonts, set(sub), is_form=True)
         forms[b"Fm%d" % (i + 1)] = gfx.Form(gen_matrix(t, "form.matrix"), (F(0), F(0), F(200), F(200)), fonts, prog, sub)
@@ -225,10 +231,12 @@ def build_document(t, fonts, forms, pieces, origin):
 
     def form_obj(fm):
         data, _ = gfx.serialise(fm.prog, t)
-        res = {b"Font": font_res(fm.fonts)}
-        if fm.forms:
-            res[b"XObject"] = {n: form_obj(s) for n, s in fm.forms.items()}
-        d = {b"Type": Name(b"XObject"), b"Subtype": Name(b"Form"), b"BBox": list(fm.bbox), b"Matrix": list(fm.matrix), b"Resources": res}
+        d = {b"Type": Name(b"XObject"), b"Subtype": Name(b"Form"), b"BBox": list(fm.bbox), b"Matrix": list(fm.matrix)}
+        if fm.fonts is not None:
+            res = {b"Font": font_res(fm.fonts)}
+            if fm.forms:
+                res[b"XObject"] = {n: form_obj(s) for n, s in fm.forms.items()}
+            d[b"Resources"] = res
         st = docs.content_stream(data, flate=t.coin(30, 100, "form.flate"), extra=d)
         return alloc(st)
 
@@ -360,7 +368,7 @@ def run(tape, ctx, item=None):
     devs = []
     counter = [0]
     fonts = gen_fonts(t, ctx, 0)
-    forms = gen_forms(t, ctx, 1, counter)
+    forms = gen_forms(t, ctx, 1, counter, parent_fonts=fonts)
     prog = gen_program(t, ctx, fonts, set(forms))
     origin = (0, 0) if t.coin(60, 100, "origin0") else (t.rint(-50, 100, "ox"), t.rint(-50, 100, "oy"))
     if origin != (0, 0):
